@@ -391,6 +391,11 @@ def classify_result(body, call, _depth=0, _local=None):
                 nontrivial = True
                 if c.matches(TRY_BRANCH):
                     fate.kinds.add('PROPAGATED')
+                elif c.matches(r'::unwrap_or_else$') and len(c.args) > 1 and op_local(c.args[1]) is not None and re.search(r'\{closure@', body.local_ty(op_local(c.args[1]))):
+                    # `r.unwrap_or_else(|e| { log.warn(e); default })`: the closure is the Err arm of a match on the result
+                    fate.kinds.add('MATCHED')
+                    fate.closures.append((c, op_local(c.args[1])))
+                    fate.handler_closures = getattr(fate, 'handler_closures', []) + [(c, op_local(c.args[1]))]
                 elif c.matches(DISCARD_METHODS):
                     byref = (c.t.get('argtys') or [''])[0].startswith('&')
                     tested = _option_tests(body, c.dest[0]) if (not byref and c.matches(r'::(ok|err)$')) else []
